@@ -15,3 +15,16 @@ CLAIMED = {
          TECH),
 }
 NA = {}
+CLAIMED['C04'] = ('model_checking',
+    'TLC explores Context.tla exhaustively (all API operation sequences up to a bound over 2 names, 2 values, 2 characters x 4 '
+    'codes, 6 macro objects incl. begin/end twins, \\foo/\\endfoo, parent-child and a document-level object) with explicit heap '
+    'pointers for catcode tables: LookupInnermost (machine lookup = rule layer), RestoreOnClose, NoWriteToSharedTable, '
+    'GlobalSurvives, CurIsTop.  One behaviour per distinct state is replayed on a real plasTeX.Context comparing depth, frame '
+    'objects, lookups, category codes and the table-sharing partition after every call; generated documents (nestings of all '
+    'scoping constructs with marker definitions, \\let, \\catcode, \\makeatletter) are parsed with the Context hooks on and the '
+    'event traces validated by TLC against ContextTrace.tla (every invariant at every step, depth 1 at the end), and the printed '
+    'marker text is compared with the plain scoping rule.',
+    'DESIGN.md#c04',
+    'Trusted: TLC, Context.tla, the projection in harness/drivers/c04.py; document traces are projected on two marker names and '
+    'two characters. NF-NUM and NF-MACRO(e) restrict generated documents. Known finding F26 (aliases to characters are lexical).',
+    TECH)
